@@ -1,20 +1,47 @@
-(* C01Plain.v — the class-free fragment on which the validity theorem is stated: every schema
-   node is metaschema-shaped where the proof needs it (unique keys, schema-valued properties /
+(* C01Plain.v — the fragment on which the validity theorems are stated.  Every schema node is
+   metaschema-shaped where the proof needs it (unique keys, schema-valued properties /
    patternProperties, distinct attribute names, non-empty anyOf / oneOf, literals free of the
-   private "_x_autotitle" key) and no node has type "object" (object classes are named and
-   deduplicated through the parse state; see DESIGN.md). *)
+   private "_x_autotitle" key).  With objs = false no node has type "object" (the class-free
+   fragment); with objs = true a node may be {"type": "object"} provided every required name has
+   a declared property whose schema has no composition keyword.  `walk` threads the class names
+   the parser meets, in parse order, and holds when no name repeats (so that the de-duplication
+   of _ParseState never substitutes an earlier class). *)
 From Coq Require String. Import String.StringSyntax.
 From Statham.Model Require Import Str Json Elem Names Tables Parser Plain.
 From Statham.Proofs Require Import StrFacts C01Scalar.
 Local Open Scope string_scope.
 Arguments s_ : simpl never.
 
+Definition nocomp (S0 : json) : Prop :=
+  match S0 with
+  | JObj kvs => existsb (fun kv => mem_str (fst kv) composition_keywords) kvs = false
+  | _ => True
+  end.
+
+Lemma nocompb_sound S0 : nocompb S0 = true -> nocomp S0.
+Proof. destruct S0; simpl; auto. intros H. now apply negb_true_iff in H. Qed.
+
 Section Plain.
   Variable cfg : pcfg.
+  Variable objs : bool.
 
   Definition type_not_object (kvs : list (str * json)) : Prop :=
     match lookup (s_ "type") kvs with
     | Some (JStr t) => t <> s_ "object"
+    | Some (JArr ts) => Forall (fun t => t <> JStr (s_ "object")) ts
+    | _ => True
+    end.
+
+  Definition obj_node_ok (kvs : list (str * json)) : Prop :=
+    forall r, In r (req_names kvs) ->
+      match lookup (s_ "properties") kvs with
+      | Some (JObj pkvs) => exists Sp, lookup r pkvs = Some Sp /\ nocomp Sp
+      | _ => False
+      end.
+
+  Definition type_cond (kvs : list (str * json)) : Prop :=
+    match lookup (s_ "type") kvs with
+    | Some (JStr t) => t = s_ "object" -> objs = true /\ obj_node_ok kvs
     | Some (JArr ts) => Forall (fun t => t <> JStr (s_ "object")) ts
     | _ => True
     end.
@@ -30,7 +57,7 @@ Section Plain.
 
   Definition node_ok (kvs : list (str * json)) : Prop :=
     let get (s : String.string) := lookup (s_ s) kvs in
-    NoDup (keys kvs) /\ type_not_object kvs /\ lit_clean kvs "const" /\ lit_clean kvs "enum" /\
+    NoDup (keys kvs) /\ type_cond kvs /\ lit_clean kvs "const" /\ lit_clean kvs "enum" /\
     dict_ok true (get "properties") /\
     (match get "properties" with Some (JObj p) => NoDup (map (attr cfg) (keys p)) | _ => True end) /\
     dict_ok true (get "patternProperties") /\ dict_ok false (get "dependencies") /\
@@ -56,10 +83,51 @@ Section Plain.
                end) (subschemas kvs) Hs)
       end.
   End Ind.
+
+  (* ---- class names in parse order ---- *)
+  Definition own_step (kvs : list (str * json)) (u u' : list str) : Prop :=
+    if is_object_node kvs then
+      match obj_title kvs with
+      | Some (JStr (c :: t)) => ~ In (title_format (c :: t)) u /\ u' = title_format (c :: t) :: u
+      | _ => u' = u
+      end
+    else u' = u.
+
+  Inductive walk : list str -> json -> list str -> Prop :=
+  | walk_leaf u S0 : (match S0 with JObj _ => False | _ => True end) -> walk u S0 u
+  | walk_node u kvs u1 u2 :
+      has_comp kvs = false ->
+      walks u (pre_list kvs) u1 ->
+      own_step kvs u1 u2 ->
+      walk u (JObj kvs) u2
+  | walk_comp u kvs u1 u2 u3 u' :
+      has_comp kvs = true ->
+      walks u (pre_list kvs) u1 ->
+      own_step kvs u1 u2 ->
+      walks u2 (comp_lists cfg kvs) u3 ->
+      walks u3 (opt_list (lookup (s_ "not") kvs)) u' ->
+      walk u (JObj kvs) u'
+  with walks : list str -> list json -> list str -> Prop :=
+  | walks_nil u : walks u [] u
+  | walks_cons u x u1 r u2 : walk u x u1 -> walks u1 r u2 -> walks u (x :: r) u2.
+
+  Lemma walks_app u a b u' : walks u (a ++ b) u' -> exists u1, walks u a u1 /\ walks u1 b u'.
+  Proof.
+    revert u. induction a as [|x a IH]; intros u H; simpl in H.
+    - exists u. split; [constructor|exact H].
+    - inversion H as [|? ? u1 ? ? Hx Hr]; subst. destruct (IH _ Hr) as (u2 & H1 & H2).
+      exists u2. split; [econstructor; eauto|exact H2].
+  Qed.
 End Plain.
 
-(* ---- a boolean checker for the fragment (used for the non-vacuity examples and by the
-   harness to count how many of the schemas it tests the theorem applies to) ---- *)
+Lemma type_cond_false cfg kvs : node_ok cfg false kvs -> type_not_object kvs.
+Proof.
+  intros (_ & H & _). unfold type_cond, type_not_object in *.
+  destruct (lookup (s_ "type") kvs) as [[| | | |t| |]|]; auto.
+  intros E. destruct (H E) as [Hf _]. discriminate.
+Qed.
+
+(* ---- the boolean checkers are sound ---- *)
 Lemma nodupb_sound l : nodupb l = true -> NoDup l.
 Proof.
   induction l as [|x r IH]; simpl; intros H; constructor; apply andb_true_iff in H as [H1 H2]; auto.
@@ -68,8 +136,9 @@ Qed.
 
 Section Checker.
   Variable cfg : pcfg.
-  Notation node_okb := (node_okb cfg).
-  Notation plainb := (plainb cfg).
+  Variable objs : bool.
+  Notation node_okb := (node_okb cfg objs).
+  Notation plainb := (plainb cfg objs).
 
   Lemma dict_okb_sound needs o : dict_okb needs o = true -> dict_ok needs o.
   Proof.
@@ -78,17 +147,24 @@ Section Checker.
     intros ->. apply Forall_forall. rewrite forallb_forall in H2. exact H2.
   Qed.
 
-  Lemma node_okb_sound kvs : node_okb kvs = true -> node_ok cfg kvs.
+  Lemma type_condb_sound kvs : type_condb objs kvs = true -> type_cond objs kvs.
   Proof.
-    unfold node_okb, node_ok. intros H.
+    unfold type_condb, type_cond. destruct (lookup (s_ "type") kvs) as [[| | | |t|ts|]|]; auto.
+    - intros H ->. rewrite str_eqb_refl in H. apply andb_true_iff in H as [H1 H2]. split; [exact H1|].
+      intros r Hr. unfold obj_node_okb in H2. rewrite forallb_forall in H2. specialize (H2 r Hr).
+      destruct (lookup (s_ "properties") kvs) as [[| | | | | |pkvs]|]; try discriminate.
+      destruct (lookup r pkvs) as [Sp|]; [|discriminate]. exists Sp. split; [reflexivity|now apply nocompb_sound].
+    - intros H. apply Forall_forall. intros tj Hin. rewrite forallb_forall in H. specialize (H _ Hin).
+      destruct tj; try discriminate. apply negb_true_iff in H. apply str_eqb_neq in H. congruence.
+  Qed.
+
+  Lemma node_okb_sound kvs : node_okb kvs = true -> node_ok cfg objs kvs.
+  Proof.
+    unfold Plain.node_okb, node_ok. intros H.
     repeat match type of H with _ && _ = true => let H2 := fresh "Hc" in apply andb_true_iff in H as [H H2] end.
     repeat split.
     - now apply nodupb_sound.
-    - unfold type_not_objectb in Hc7. unfold type_not_object.
-      destruct (lookup (s_ "type") kvs) as [[| | | |t|ts|]|]; auto.
-      + apply negb_true_iff in Hc7. now apply str_eqb_neq.
-      + apply Forall_forall. intros tj Hin. rewrite forallb_forall in Hc7. specialize (Hc7 _ Hin).
-        destruct tj; try discriminate. apply negb_true_iff in Hc7. apply str_eqb_neq in Hc7. congruence.
+    - now apply type_condb_sound.
     - unfold lit_cleanb in Hc6. unfold lit_clean. destruct (lookup (s_ "const") kvs); auto.
     - unfold lit_cleanb in Hc5. unfold lit_clean. destruct (lookup (s_ "enum") kvs); auto.
     - now apply dict_okb_sound.
@@ -101,11 +177,48 @@ Section Checker.
       destruct (lookup (s_ "oneOf") kvs) as [[| | | | |[|]|]|]; auto. discriminate.
   Qed.
 
-  Theorem plainb_sound : forall fuel S0, plainb fuel S0 = true -> plain cfg S0.
+  Theorem plainb_sound : forall fuel S0, plainb fuel S0 = true -> plain cfg objs S0.
   Proof.
-    induction fuel as [|n IH]; intros S0 H; [discriminate|]. cbn [plainb] in H.
+    induction fuel as [|n IH]; intros S0 H; [discriminate|]. cbn [Plain.plainb] in H.
     destruct S0; try discriminate; [constructor|].
     apply andb_true_iff in H as [H1 H2]. constructor; [now apply node_okb_sound|].
     apply Forall_forall. intros x Hx. apply IH. rewrite forallb_forall in H2. auto.
+  Qed.
+
+  Lemma own_stepb_sound kvs u u' : own_stepb kvs u = Some u' -> own_step kvs u u'.
+  Proof.
+    unfold own_stepb, own_step. destruct (is_object_node kvs); [|intros E; now inversion E].
+    destruct (obj_title kvs) as [[| | | |[|c t]| |]|]; try (intros E; now inversion E).
+    destruct (mem_str (title_format (c :: t)) u) eqn:Em; [discriminate|].
+    intros E. inversion E. split; [now apply mem_str_false|reflexivity].
+  Qed.
+
+  Theorem walkb_sound : forall fuel u S0 u', walkb cfg fuel u S0 = Some u' -> walk cfg u S0 u'.
+  Proof.
+    induction fuel as [|n IH]; intros u S0 u' H; [discriminate|]. cbn [walkb] in H.
+    set (walksb := fix go (u0 : list str) (l : list json) : option (list str) :=
+           match l with
+           | [] => Some u0
+           | x :: r => match walkb cfg n u0 x with Some u1 => go u1 r | None => None end
+           end) in *.
+    assert (Hs : forall l u0 u1, walksb u0 l = Some u1 -> walks cfg u0 l u1).
+    { induction l as [|x r IHl]; intros u0 u1 Hl; simpl in Hl.
+      - inversion Hl. constructor.
+      - destruct (walkb cfg n u0 x) as [u2|] eqn:Ex; [|discriminate].
+        econstructor; [apply IH; exact Ex|apply IHl; exact Hl]. }
+    destruct S0 as [| | | | | |kvs]; try (inversion H; subst; now constructor).
+    destruct (walksb u (pre_list kvs)) as [u1|] eqn:E1; [|discriminate].
+    destruct (own_stepb kvs u1) as [u2|] eqn:E2; [|discriminate].
+    destruct (has_comp kvs) eqn:Ec.
+    - destruct (walksb u2 (comp_lists cfg kvs)) as [u3|] eqn:E3; [|discriminate].
+      apply (walk_comp cfg u kvs u1 u2 u3 u'); auto. now apply own_stepb_sound.
+    - inversion H; subst. apply (walk_node cfg u kvs u1 u'); auto. now apply own_stepb_sound.
+  Qed.
+
+  Theorem in_fragment_sound fuel S0 : in_fragment cfg objs fuel S0 = true ->
+    plain cfg objs S0 /\ exists u', walk cfg [] S0 u'.
+  Proof.
+    unfold in_fragment. intros H. apply andb_true_iff in H as [H1 H2]. split; [eapply plainb_sound; eauto|].
+    destruct (walkb cfg fuel [] S0) as [u'|] eqn:E; [|discriminate]. exists u'. eapply walkb_sound; eauto.
   Qed.
 End Checker.
